@@ -153,4 +153,101 @@ def c29(prop, tier, replay):
     return rc
 
 
-REGISTRY = {"C29": c29}
+def ls_batch_parse(binary, items, tag):
+    """items: list of {"id","text"}; returns {id: verdict} from the language server's own parser"""
+    import subprocess
+    path = os.path.join(OUT, f"ls_parse_{tag}.ndjson")
+    with open(path, "w") as f:
+        for it in items:
+            f.write(json.dumps({"id": it["id"], "text": it["text"]}) + "\n")
+    env = dict(os.environ)
+    env["PAROL_LS_VERIF_PARSE"] = path
+    r = subprocess.run([binary, "--stdio"], env=env, stdout=subprocess.PIPE, stderr=subprocess.PIPE, text=True, timeout=1800)
+    out = {}
+    for l in r.stdout.splitlines():
+        try:
+            v = json.loads(l)
+            out[v["id"]] = v["verdict"]
+        except Exception:
+            pass
+    if len(out) < len(items):
+        raise ToolError(f"parol-ls batch parse answered {len(out)} of {len(items)} texts (rc={r.returncode}): {r.stderr[-1500:]}")
+    return out
+
+
+def c34(prop, tier, replay):
+    import p_misc
+    from p_misc import corpus_pars, naming_vectors, PAR_FLAGS, ebnf_gens
+    t0 = time.time()
+    rep = Reporter(prop, tier)
+    binary = pvlib.build_ls()
+    vec_path = os.path.join(OUT, f"{prop}_{tier}.vec.ndjson")
+    nmut = 6 if tier == "quick" else 60
+    spaces = []
+    tot = {"generated": 0, "distinct": 0}
+    if replay:
+        case = json.load(open(replay))["case"]
+        with open(vec_path, "w") as f:
+            f.write(json.dumps({"par": case["text"], "id": case["id"], "mutations": 0}) + "\n")
+    else:
+        with open(vec_path, "w") as f:
+            files = corpus_pars()
+            for i, fn in enumerate(files):
+                f.write(json.dumps({"par": open(fn).read(), "id": fn, "seed": pvlib.seed() * 31 + i, "mutations": nmut}) + "\n")
+            spaces.append({"space": "repository .par files", "vectors": len(files), "mutations_each": nmut})
+            for v in naming_vectors():
+                v.update({"seed": pvlib.seed(), "mutations": nmut})
+                f.write(json.dumps(v) + "\n")
+            # feature templates and EBNF grammars from the TLC generators
+            for gi, g in enumerate([{"module": "Gen_Flags", "constants": {"Flags": PAR_FLAGS, "MinOn": 0, "MaxOn": 2 if tier == "quick" else 4},
+                                     "invariants": ["Emit"], "no_shard_consts": True}] + ebnf_gens(tier, False)[:2]):
+                part = vec_path + f".{gi}"
+                gen = tlc_gen(g["module"], g["constants"], g["invariants"], 1, part, spec="Spec", run_prefix=f"{prop}_{tier}_{gi}",
+                              no_shard_consts=True)
+                k = 0
+                for j, l in enumerate(open(part)):
+                    v = json.loads(l)
+                    v.update({"id": f"{g['module']}{gi}-{j}", "seed": pvlib.seed() + j, "mutations": 2 if tier == "quick" else 10})
+                    f.write(json.dumps(v) + "\n")
+                    k += 1
+                os.remove(part)
+                tot["generated"] += gen["generated"]
+                tot["distinct"] += gen["distinct"]
+                spaces.append({"space": g["module"], "vectors": k})
+    outp = os.path.join(OUT, f"{prop}_{tier}.replay.ndjson")
+    pvlib.pv(["replay", "c34", vec_path, outp])
+    res = read_ndjson(outp)
+    summary = res[-1]["summary"]
+    events = read_ndjson(outp + ".trace")
+    if not events:
+        raise ToolError("no texts generated")
+    ls = ls_batch_parse(binary, events, f"{prop}_{tier}")
+    trace_path = os.path.join(OUT, f"{prop}_{tier}.trace.ndjson")
+    agree_err = 0
+    with open(trace_path, "w") as f:
+        for e in events:
+            e["ls"] = ls[e["id"]]
+            agree_err += e["parol"] == "syntax" and e["ls"] == "syntax"
+            f.write(json.dumps(e, separators=(",", ":")) + "\n")
+
+    def describe(first, ev, run_ev):
+        return {"id": ev.get("id"), "text": ev.get("text"), "parol": ev.get("parol"), "ls": ev.get("ls")}, \
+            f"parol: {ev.get('parol')} / parol-ls: {ev.get('ls')} on {json.dumps(ev.get('text'))[:300]}"
+    tvres = tv.validate(prop, "ParseAgree", trace_path, rep, describe, nchunks=8, boundary="parse", run_prefix=f"{prop}_{tier}_tv")
+    rc = rep.finish()
+    cov = {"states": max(tot["distinct"] + tvres["states"], 1), "transitions": max(tot["generated"] + tvres["states"], 1),
+           "traces_validated_against_impl": tvres["cases_accepted"], "samples": [{k: e[k] for k in ("id", "parol", "ls")} for e in events[:3]],
+           "evaluations": len(events), "distinct_nontrivial": agree_err,
+           "rule": "texts: every .par file of the repository, the naming catalogue, TLC-enumerated PAR feature templates and EBNF grammars, each as "
+                   "it is and with seeded mutations (deleted/duplicated/swapped/truncated spans, inserted PAR punctuation and directives); each text "
+                   "is parsed by parol's parser (parol::parse) and by the language server's parser (parol-ls batch mode behind cfg(parol_verif)); "
+                   "ParseAgree.tla requires: syntax error in one iff syntax error in the other, no panic. non-trivial = texts both reject",
+           "tags": summary["tags"], "spaces": spaces, "tv": {k: tvres[k] for k in ("events", "cases", "cases_accepted", "states")},
+           "exhaustive": False, "known_findings_seen": rep.known}
+    write_evidence(prop, tier, "exploration", cov, time.time() - t0, len(rep.violations),
+                   ["bounded CFG equivalence of parol.par and parol_ls.par by TLC was not feasible (43 terminals; see DESIGN.md): the verdict rests on "
+                    "differential parsing"])
+    return rc
+
+
+REGISTRY = {"C29": c29, "C34": c34}
